@@ -3,8 +3,13 @@
 # simulator and updates the verdicts in each meta.json ("checks_run"). Confirmation of the
 # change itself (demo / suite) is not repeated.
 #   tools/recheck_seeds.sh [name-glob]        env: MUT_WORK, MUT_TARGET as for tools/mutant.sh
+#   RECHECK_SHARD=i/n takes every n-th directory starting at the i-th (run n instances with
+#   different MUT_WORK / MUT_TARGET to use the machine).
 cd "$(dirname "$0")/.."
+SH_I="${RECHECK_SHARD%%/*}"; SH_N="${RECHECK_SHARD##*/}"; [ -z "${RECHECK_SHARD:-}" ] && { SH_I=0; SH_N=1; }
+k=-1
 for d in seeded/${1:-*}/; do
+  k=$((k+1)); [ $((k % SH_N)) -eq "$SH_I" ] || continue
   name="$(basename "$d")"
   props="$(python3 -c "import json,sys; m=json.load(open('$d/meta.json')); ks=list(m.get('checks_run',{}).keys()) or [m['breaks_property']]; print(' '.join(ks))")"
   out="$(tools/mutant.sh "$d/patch.diff" $props 2>&1 | grep -E "caught|MISSED|DOES-NOT|PATCH-DOES")"
